@@ -328,6 +328,12 @@ func (t *tlopen) handle(cs *connState) message {
 			return linux.EINVAL
 		}
 
+		// The check below, the open itself and marking the fid as
+		// opened must be one step with respect to other opens of this
+		// fid.
+		ref.openMu.Lock()
+		defer ref.openMu.Unlock()
+
 		// Has it been opened already?
 		if ref.opened || !CanOpen(ref.mode) {
 			return linux.EINVAL
@@ -340,14 +346,17 @@ func (t *tlopen) handle(cs *connState) message {
 
 		// Do the open.
 		qid, ioUnit, err = ref.file.Open(t.Flags)
-		return err
+		if err != nil {
+			return err
+		}
+
+		// Mark file as opened and set open mode.
+		ref.opened = true
+		ref.openFlags = t.Flags
+		return nil
 	}); err != nil {
 		return newErr(err)
 	}
-
-	// Mark file as opened and set open mode.
-	ref.opened = true
-	ref.openFlags = t.Flags
 
 	return &rlopen{QID: qid, IoUnit: ioUnit}
 }
